@@ -752,6 +752,11 @@ class Exec:
         if isinstance(node.op, ast.Not):
             return T.mk_bool(z3.Not(self.truthy(st, v)))
         if isinstance(node.op, ast.USub):
+            if isinstance(v.ty, T.Opt):
+                if not self.spec:
+                    self.oblige(st, "safety", f"none-arith@{getattr(node, 'lineno', 0)}", z3.Not(v.terms[0]), node,
+                                "arithmetic on None raises TypeError")
+                v = T.opt_inner(v)
             if v.ty in (T.TD,):
                 return V(T.TD, [-v.t])
             x = self.num(v)
